@@ -126,7 +126,36 @@ def st_datetime_us():
     )
 
 
+def _under_tz(tz, fn, *a):
+    """Run fn with the process time zone set to ``tz`` (UTC datetimes must not depend on it); always restored."""
+    import os
+    import time
+
+    old = os.environ.get("TZ")
+    os.environ["TZ"] = tz
+    time.tzset()
+    try:
+        return fn(*a)
+    finally:
+        if old is None:
+            os.environ.pop("TZ", None)
+        else:
+            os.environ["TZ"] = old
+        time.tzset()
+
+
+TZS = ("UTC0", "CET-1CEST", "EST5EDT", "NZST-12NZDT", "IST-5:30", "<-11>11")
+
+
 def check_from_datetime(us):
+    devs = _check_from_datetime(us)
+    if not devs:
+        tz = TZS[us % len(TZS)]
+        devs = [Dev(f"{d.sub}.under_TZ", f"process TZ={tz}: {d.detail}") for d in _under_tz(tz, _check_from_datetime, us)]
+    return devs
+
+
+def _check_from_datetime(us):
     cds = _cds()
     devs = []
     d = EPOCH + dt.timedelta(microseconds=us)
@@ -209,7 +238,11 @@ def check_add(c):
         expect_raise(devs, "add.overflow", lambda: s + td, accept=(OverflowError,))
         return devs
     try:
-        r = s + td
+        if (c["days"] + c["td"]["seconds"]) % 2:
+            r = s
+            r += td  # the in-place spelling (falls back to __add__ unless the class defines its own)
+        else:
+            r = s + td
     except OverflowError as e:
         devs.append(Dev("add.spurious_overflow", f"OverflowError for a sum with day count {wd}: {e}"))
         return devs
@@ -221,7 +254,8 @@ def check_add(c):
         td2 = dt.timedelta(days=c["then"]["days"], seconds=c["then"]["seconds"], microseconds=c["then"]["us"])
         total2 = wd * MS_DAY + wm + td2.days * MS_DAY + td2.seconds * 1000 + td2.microseconds // 1000
         if total2 // MS_DAY <= 65535:
-            r2 = r + td2
+            r2 = r
+            r2 += td2
             eq(devs, "add.chained.value", (r2.ccsds_days, r2.ms_of_day), (total2 // MS_DAY, total2 % MS_DAY), f"second addition of {td2!r}")
             if (r2.ccsds_days, r2.ms_of_day) == (total2 // MS_DAY, total2 % MS_DAY):
                 check_views(devs, r2, total2 // MS_DAY, total2 % MS_DAY, "add.chained.views")
